@@ -55,8 +55,12 @@ func verifC04Data() []byte {
 	return []byte{0x06, 0x08, 0x07, 0x03, 0x08, 0x01, 'a', 0x15, 0x01, verifByte("c")}
 }
 
+// fragmentation fields of the frame built last (absent FragIndex counts as 0, absent FragCount as 1)
+var verifC04LastIdx, verifC04LastCnt uint64
+
 func verifC04Frame(withFrag bool) []byte {
 	lp := &spec.LpPacket{}
+	verifC04LastIdx, verifC04LastCnt = 0, 1
 	if verifBool("hasSeq") {
 		v := verifU64("seq")
 		lp.Sequence = &v
@@ -64,6 +68,7 @@ func verifC04Frame(withFrag bool) []byte {
 	if verifBool("hasIdx") {
 		v := verifU64("fragIndex")
 		lp.FragIndex = &v
+		verifC04LastIdx = v
 	}
 	if verifBool("hasCnt") {
 		v := verifU64("fragCount")
@@ -71,6 +76,7 @@ func verifC04Frame(withFrag bool) []byte {
 		// would be unrolled that many times); small counts and everything above the packet size are covered
 		verifAssume(v <= uint64(verifParam("maxcount", 3)) || v > 8800)
 		lp.FragCount = &v
+		verifC04LastCnt = v
 	}
 	switch verifChoice("tok", verifParam("tokforms", 2)) {
 	case 1:
@@ -109,6 +115,11 @@ func VerifC04_LinkFrames() {
 		n += t.n
 	}
 	verifAssert(n <= nframes*nth, "C04/link/no-spurious-delivery")
+	if nframes == 1 {
+		// one frame into a fresh link service: it can only be delivered if it is the only fragment of its packet; a frame
+		// announcing itself as a piece of a larger packet (or with an impossible index) is never handed up as a packet
+		verifAssert(n == 0 || (verifC04LastIdx == 0 && verifC04LastCnt == 1), "C04/link/lone-fragment-of-a-larger-packet-is-not-delivered")
+	}
 }
 
 // A frame that fails to decode changes no state other than counters.
